@@ -48,6 +48,12 @@ PROPS = {
                      "the k-th storage call fails (transient, and persistent from k on) with rotating error kinds (connection refused, context canceled, deadline exceeded, sqlcon, herodot 500); "
                      "oracles: result is an error or the fault-free answer; never allowed when fault-free is denied; never Err != nil together with IsMember; REST and gRPC batch entries never allowed:true with an error; "
                      "non-trivial = a run in which the planned fault position was actually reached; distinct by (case, query, k, persistent)"),
+    "C14": dict(test="TestC14", level="exploration", runs=[("", "plain", 16), ("race", "race", 8)], timeout=(1200, 7200), floor=(4000, 1500),
+                rule="round = one registry with generated data and a multiset of 50-250 requests over few keys (REST check GET/POST, batch check, expand, list; gRPC check, expand, list); "
+                     "determinism: every distinct request is answered alone three times (requests whose solo answer varies are excluded), then the whole multiset runs with 4/16/64 concurrent clients "
+                     "under schedule perturbation (verif hook points) and GOMAXPROCS 16/2: every concurrent answer must equal the solo answer byte for byte; "
+                     "race mode (-race binary, GORACE log files): routers/servers are built sequentially like ServeAll does, then the FIRST requests on the cold registry run concurrently together with REST/gRPC writers "
+                     "and namespace reloads; every race-detector report is a violation (deduplicated by stack pair); non-trivial = a compared concurrent answer, distinct by (round, request), or a race round"),
     "C15": dict(test="TestC15", level="fault_enumeration", runs=[("", "plain", 16), ("selfperm", "plain", 8)], timeout=(900, 5400), floor=(1500, 60),
                 rule="case = generated (config, relationships, queries) incl. cycles through subject sets, recursive traverse on cyclic parents, same-object recursion through permits under && / ! (own children), nodes with >100 children; "
                      "per query: fault-free run (N storage calls), context cancelled before start, 50 ms deadline, and for EVERY k in 1..min(N,cap): context cancelled when call k starts / returns, call k failing (transient / persistent); "
@@ -481,8 +487,8 @@ def _collect_race_reports(workdir, prop):
             keto = []
             for line in b.splitlines():
                 s = line.strip()
-                if s.startswith("github.com/") or s.startswith("runtime.") or s.startswith("sync") or (s and s[0].isalpha() and "(" in s and "." in s.split("(")[0]):
-                    fn = s.split("(")[0]
+                if s.startswith("github.com/") or s.startswith("runtime.") or s.startswith("sync") or (s and s[0].isalpha() and s.endswith(")") and "." in s):
+                    fn = s[:s.rfind("(")] if s.endswith(")") else s
                     frames.append(fn)
                     if s.startswith("github.com/ory/keto/") and "/verifh" not in s:
                         keto.append(fn.replace("github.com/ory/keto/", ""))
